@@ -37,7 +37,6 @@ MARGIN = 15         # queries stay this many points away from the end of the pre
 METHODS = ["on", "valid", "prev", "nprev", "next", "nexton", "first", "start", "stop"]
 QCTOR = {"on": "QOn", "valid": "QValid", "prev": "QPrev", "nprev": "QNPrev", "next": "QNext",
          "nexton": "QNextOn", "first": "QFirst"}
-SIG_STOP = "seq:get_stop_point:last-two-points-excluded"
 SIG_PREV = "seq:get_prev_point:month-or-year-step-not-invertible"
 SIG_NEXT = "seq:get_next:month-or-year-step-depends-on-time-zone-of-start"
 
@@ -294,7 +293,7 @@ class SeqStream(Stream):
         g = {"cal": "gregorian", "tz": "Z", "xdigits": 0}
         allq = [[m, i, 0] for i in (0, 1, 2, 3, 4, 5) for m in METHODS[:7]]
         return [
-            # witness of finding 1: last two points excluded -> get_stop_point returns an excluded point
+            # regression (fixed in /repo dde59a5): last two points excluded -> get_stop_point returned an excluded point
             {"cfg": g, "expr": "R5/20000101T00Z/P1D!(20000105T00Z,20000104T00Z)", "ctx0": "20000101T0000Z", "ctx1": None,
              "N": 3, "queries": [["stop"], ["start"]] + allq + [["stop"]], "kind": "trailing-excl"},
             {"cfg": g, "expr": "R1!20000101T00Z", "ctx0": "20000101T0000Z", "ctx1": None, "N": 3,
@@ -551,6 +550,8 @@ class SeqStream(Stream):
             return None
         if not self._margin_ok(v, r["complete"]):
             return None
+        if any(k == "nonepoint" for k, _ in v["answers"]):
+            return None          # the bogus point 'None' (pre-dde59a5 behaviour): oracle failure, not modelled
         if r["bounded"] and not r["complete"] and any(m == "stop" for m, _ in v["queries"]):
             return None          # a bounded recurrence longer than the enumerated prefix
         fwd, bwd = self._hyps(v, r["complete"])
@@ -570,8 +571,6 @@ class SeqStream(Stream):
                 return f"(Err {x})"
             if k == "bool":
                 return f"(Ok (ABool {q.cbool(x)}))"
-            if k == "nonepoint":
-                return "(Ok ANonePoint)"
             return f"(Ok (APt {q.copt(x, cz)}))"
         return q.crecord(
             k_enum=q.clist(cz(z) for z in v["enum"]),
@@ -663,9 +662,6 @@ class SeqStream(Stream):
             try:
                 v = self._view(c, r)
                 en = v["enum"]
-                if "stop" in failure.split("query #")[-1][:12] and len(en) >= 1 and en[-1] in v["excl"] \
-                        and (len(en) == 1 or en[-2] in v["excl"]):
-                    return SIG_STOP
                 fwd, bwd = self._hyps(v, r["complete"])
                 if not fwd and all(a < b for a, b in zip(en, en[1:])):
                     return SIG_NEXT
@@ -704,8 +700,9 @@ META = {
                    "get_prev_point / get_nearest_prev_point when get_prev inverts get_next; (2) cache transparency for ALL queries "
                    "without domain restriction: the answer at any position of any session equals the answer at any position of "
                    "any other session (invariant: every cache entry is the enumeration-level answer, recent valid points are "
-                   "non-excluded members). Refuted on the faithful model and reproduced on the real class: get_stop_point with the "
-                   "last two points excluded (finding 1); get_prev_point with non-invertible month/year steps (finding 2). The "
+                   "non-excluded members). get_stop_point is proved to be the last non-excluded point for every exclusion set (defect fixed in /repo dde59a5, "
+                   "witness kept as regression case). Open findings reproduced on the real class: get_prev_point with non-invertible "
+                   "month/year steps; history dependence with month steps and a start point in another time zone. The "
                    "model is tied to the real class by differential sessions compared inside Coq, instantiated with the iterated "
                    "real recurrence and its observed get_next/get_prev/get_is_valid answers; hyps_check (proved sound for the "
                    "hypotheses) is evaluated in Coq on every sample; an independent brute-force oracle and a fresh-object re-ask "
